@@ -93,7 +93,10 @@ Qed.
 Lemma c_insert_new_list : forall c n w f, c_lookup (c_list c) n = None ->
   let e := mkcs n w (match f with Some x => c_now c + Z.of_N x | None => c_now c end) in
   c_list (c_insert c n w f) = skipn (length (c_list c) + 1 - N.to_nat (c_cap c)) (c_list c ++ [e]).
-Proof. intros c n w f H. unfold c_insert. rewrite H. cbn [c_list]. rewrite app_length. reflexivity. Qed.
+Proof.
+  intros c n w f H. unfold c_insert. rewrite H. cbn [c_list]. rewrite app_length. f_equal.
+  rewrite N2Nat.inj_sub, Nat2N.id. reflexivity.
+Qed.
 
 Lemma c_insert_new_capacity : forall c n w f, c_lookup (c_list c) n = None ->
   (length (c_list (c_insert c n w f)) <= N.to_nat (c_cap c))%nat.
